@@ -22,7 +22,8 @@ func main() {
 		n = 1200
 	}
 	vlib.ExecConformance(c, "C04", bins, vs, rand.New(rand.NewSource(vlib.Seed()+400)), n,
-		vlib.ExecMode{Faults: true, Panics: true, DirFaults: true, IntFaults: true, ArgFaults: true, Mutations: true, PlansPer: 6})
+		vlib.ExecMode{Faults: true, Panics: true, DirFaults: true, IntFaults: true, ArgFaults: true, Mutations: true, PlansPer: 6,
+			Transports: []string{"tp:post", "tp:sse", "tp:mixed"}, TransportEvery: 5})
 	// second pass: through handler.Server + POST, with values whose marshaler panics while
 	// the response is serialized ("fails only that response with a well-formed error body")
 	mp := func(id, q string, plan map[string]ur.Outcome) *vlib.Scenario {
